@@ -20,6 +20,8 @@ def run(ck: Check):
     session_universe(ck, oracle_session, quick=ck.tier == "quick")
     from scale import big_final_is_last_accepted
     big_final_is_last_accepted(ck)
+    from boundaries import final_file_at_part_counts
+    final_file_at_part_counts(ck, ck.tier == "quick")
     ex.diff()
     return ck.finish(level="proof", rule=RULE, assumptions=[
         "the interestingness test sees only the file, its arguments and the prefix",
